@@ -287,6 +287,18 @@ func (e *SpecEnv) ident(name string) (Value, error) {
 			return e.frame.env[best], nil
 		}
 	}
+	// a local variable that lives in memory (its address is taken): the Alloc of that name
+	if e.frame != nil {
+		for _, b := range e.frame.fn.Blocks {
+			for _, ins := range b.Instrs {
+				if al, ok := ins.(*ssa.Alloc); ok && al.Comment == name {
+					if v, ok := e.frame.env[al]; ok {
+						return v, nil
+					}
+				}
+			}
+		}
+	}
 	// package-level constant
 	if e.fn != nil {
 		var pkg *types.Package
@@ -555,6 +567,26 @@ func (e *SpecEnv) call(n *ast.CallExpr) (Value, error) {
 			return e.catEq(n)
 		case "seqEq":
 			return e.seqEq(n)
+		case "seqOf":
+			// literal sequence of strings / ints
+			var elems []*Term
+			for _, a := range n.Args {
+				t, err := e.evalTerm(a)
+				if err != nil {
+					return nil, err
+				}
+				elems = append(elems, t)
+			}
+			if len(elems) == 0 {
+				return nil, fmt.Errorf("seqOf needs at least one element")
+			}
+			es := elems[0].Sort
+			ss := e.x.w.sliceSortOfElemSort(es)
+			arr := e.x.w.constArray(es)
+			for i, t := range elems {
+				arr = Store(arr, IntT(int64(i)), t)
+			}
+			return mkSlice(ss, arr, IntT(int64(len(elems))), False), nil
 		case "sameExcept":
 			return e.sameExcept(n)
 		case "isType":
